@@ -5,6 +5,8 @@
 (*  unpickler stops, relative to offset),                                      *)
 (*  first : ok, dumps_len, dumps_is_slice, pos_after (-1 when the input has no *)
 (*          position), rest_len (bytes still readable afterwards), rest_is_tail*)
+(*  loader: ran, returned, pos_after, rest_len, rest_is_tail (fickling.load on *)
+(*          the same layout, seekable kinds only)                              *)
 (*  stack : ran, ok, n, part_lens <<..>>, parts_are_slices, concat_is_input    *)
 EXTENDS Integers, Sequences, TLC, Json, IOUtils, TLCExt
 T == JsonDeserialize(IOEnv.VERIF_TRACE)
@@ -23,6 +25,8 @@ Why(R) ==
   ELSE IF R.first.dumps_len # w1 \/ ~R.first.dumps_is_slice THEN "re-serialising does not reproduce the bytes of the first pickle"
   ELSE IF R.first.pos_after # -1 /\ R.first.pos_after # R.offset + w1 THEN "stream is not positioned immediately after the first pickle"
   ELSE IF R.kind # "bytes" /\ (R.first.rest_len # after \/ ~R.first.rest_is_tail) THEN "what follows the first pickle was consumed or altered"
+  ELSE IF R.loader.ran /\ R.loader.returned /\ R.loader.pos_after # R.offset + w1 THEN "checked loader: stream is not positioned immediately after the first pickle"
+  ELSE IF R.loader.ran /\ R.loader.returned /\ (R.loader.rest_len # after \/ ~R.loader.rest_is_tail) THEN "checked loader: what follows the first pickle was consumed or altered"
   ELSE IF R.stack.ran /\ R.trail = "none" /\ ~R.stack.ok THEN "parsing a concatenation of pickles as a stack fails"
   ELSE IF R.stack.ran /\ R.trail = "none" /\ R.stack.n # Len(R.widths) THEN "stack does not have exactly one element per pickle"
   ELSE IF R.stack.ran /\ R.trail = "none" /\ (R.stack.part_lens # R.widths \/ ~R.stack.parts_are_slices) THEN "an element does not re-serialise to its own bytes"
